@@ -33,7 +33,9 @@ def main():
                 rows.append((name, "patch-does-not-apply", r.stdout[-200:]))
                 print(name, "PATCH DOES NOT APPLY", r.stdout[-200:].replace("\n", " "), flush=True)
                 continue
-            r = subprocess.run([sys.executable, "-B", os.path.join(VERIF, "rv", "run.py"), meta["property"], "--tier", "quick",
+            # (a change seeded for one property may only be visible to the check of another: C15-6 needs two threads,
+            # which are C11's subject - the meta file names the check that is expected to catch it)
+            r = subprocess.run([sys.executable, "-B", os.path.join(VERIF, "rv", "run.py"), meta.get("caught_by_check", meta["property"]), "--tier", "quick",
                                 "--no-evidence"], capture_output=True, text=True, cwd=VERIF,
                                env=dict(os.environ, RV_REPO=scratch), timeout=1800)
             mechs = sorted({l.split("mechanism:")[1].split("(")[0].strip() for l in r.stdout.splitlines() if "mechanism:" in l})
